@@ -16,6 +16,7 @@ import (
 	"os/exec"
 	"reflect"
 	"runtime/debug"
+	"runtime/metrics"
 	"sort"
 	"strconv"
 	"strings"
@@ -69,7 +70,9 @@ func decodeNamed(s *tlh.Struct, data []byte) string {
 	var out string
 	p, val := vc.Catch(func() {
 		pv := reflect.New(s.Type)
+		a0 := allocated()
 		err := tl.Decode(data, pv.Interface())
+		lastAlloc = allocated() - a0
 		if err != nil {
 			out = "err"
 			return
@@ -85,7 +88,9 @@ func decodeNamed(s *tlh.Struct, data []byte) string {
 func decodeUnknown(data []byte, hints []reflect.Type) string {
 	var out string
 	p, val := vc.Catch(func() {
+		a0 := allocated()
 		o, err := tl.DecodeUnknownObject(data, hints...)
+		lastAlloc = allocated() - a0
 		if err != nil {
 			out = "err"
 			return
@@ -96,6 +101,18 @@ func decodeUnknown(data []byte, hints []reflect.Type) string {
 		return "panic:" + vc.HexS(fmt.Sprint(val))
 	}
 	return out
+}
+
+// bytes allocated on the heap so far (cumulative), and what the last library decode call allocated
+var allocSample = []metrics.Sample{{Name: "/gc/heap/allocs:bytes"}}
+var lastAlloc uint64
+
+func allocated() uint64 {
+	metrics.Read(allocSample)
+	if allocSample[0].Value.Kind() != metrics.KindUint64 {
+		return 0
+	}
+	return allocSample[0].Value.Uint64()
 }
 
 // worker: decoding of hostile input runs in a child process under an address-space limit, so
@@ -142,12 +159,41 @@ func (w *caseWriter) viaWorker(mode, hints string, data []byte) string {
 			w.wk = nil
 			return "fatal:process-died"
 		}
-		return r.s
+		out := r.s
+		if k := strings.LastIndexByte(out, '\t'); k >= 0 {
+			alloc, _ := strconv.ParseUint(out[k+1:], 10, 64)
+			out = out[:k]
+			w.judgeAlloc(mode, hints, data, alloc)
+		}
+		return out
 	case <-time.After(20 * time.Second):
 		wk.cmd.Process.Kill()
 		wk.cmd.Wait()
 		w.wk = nil
 		return "fatal:timeout"
+	}
+}
+
+// allocation in proportion to the input: a decode may allocate a multiple of the bytes it is given
+// (a 4-byte element becomes a 16-byte string header or a small struct) plus a constant for the decoder's own
+// buffers, never megabytes for a handful of bytes. gzip_packed is exempt ("apart from gzip expansion").
+const allocPerByte, allocSlack = 512, 1 << 20
+
+func (w *caseWriter) judgeAlloc(mode, hints string, data []byte, alloc uint64) {
+	w.lastAlloc = alloc
+	if w.out == nil {
+		return
+	}
+	if alloc > w.maxAlloc {
+		w.maxAlloc = alloc
+	}
+	if bytes.Contains(data, le32(crcGzip)) {
+		return
+	}
+	w.stat["Q:judged"]++
+	if alloc > uint64(allocPerByte*len(data)+allocSlack) {
+		w.stat["Q:out-of-proportion"]++
+		w.out.Line("Q", w.id(), mode, hints, vc.Hex(data), strconv.FormatUint(alloc, 10))
 	}
 }
 
@@ -160,6 +206,9 @@ func decWorker() {
 	sc := bufio.NewScanner(os.Stdin)
 	sc.Buffer(make([]byte, 1<<20), 1<<28)
 	out := bufio.NewWriter(os.Stdout)
+	// warm up: one-time initialisation of the library and of reflect must not be charged to the first case
+	decodeUnknown(le32(0x997275b5), nil)
+	decodeUnknown(append(append(le32(0x1cb5c415), le32(1)...), le32(5)...), []reflect.Type{reflect.TypeOf([]int32{})})
 	for sc.Scan() {
 		f := strings.Split(sc.Text(), "\t")
 		data := vc.UnHex(f[2])
@@ -171,6 +220,8 @@ func decWorker() {
 			r = decodeNamed(u.Structs[tid], data)
 		}
 		out.WriteString(r)
+		out.WriteByte('\t')
+		out.WriteString(strconv.FormatUint(lastAlloc, 10))
 		out.WriteByte('\n')
 		out.Flush()
 	}
@@ -182,15 +233,8 @@ func parseHints(h string) []reflect.Type {
 		return nil
 	}
 	for _, x := range strings.Split(h, ",") {
-		switch x {
-		case "Vi32":
-			hints = append(hints, reflect.TypeOf([]int32{}))
-		case "Vi64":
-			hints = append(hints, reflect.TypeOf([]int64{}))
-		case "Vstr":
-			hints = append(hints, reflect.TypeOf([]string{}))
-		case "Vbytes":
-			hints = append(hints, reflect.TypeOf([][]byte{}))
+		if t, ok := u.TypeOfFty(x); ok {
+			hints = append(hints, t)
 		}
 	}
 	return hints
@@ -203,6 +247,37 @@ type caseWriter struct {
 	stat map[string]int
 	gz   map[string]bool
 	seen map[string]bool
+	// results of earlier tl.Marshal calls (the very slices the library returned) and copies taken
+	// at once: a result must not change when the library is used again
+	kept      []keptResult
+	maxAlloc  uint64
+	lastAlloc uint64
+}
+
+type keptResult struct {
+	what string
+	data []byte
+	snap []byte
+}
+
+// keep remembers a Marshal result; checkKept compares every remembered result with its snapshot
+func (w *caseWriter) keep(what string, data []byte) {
+	if len(w.kept) >= 8 {
+		w.kept = w.kept[1:]
+	}
+	w.kept = append(w.kept, keptResult{what, data, append([]byte{}, data...)})
+}
+
+func (w *caseWriter) checkKept(after string) {
+	for i := range w.kept {
+		k := &w.kept[i]
+		if !bytes.Equal(k.data, k.snap) {
+			w.stat["A:overwritten"]++
+			w.out.Line("A", w.id(), k.what, vc.Hex(k.snap), vc.Hex(k.data), after)
+			k.snap = append([]byte{}, k.data...)
+		}
+	}
+	w.stat["A:checks"]++
 }
 
 func (w *caseWriter) id() string { w.n++; return strconv.Itoa(w.n) }
@@ -216,10 +291,18 @@ func (w *caseWriter) enc(s *tlh.Struct, pv reflect.Value, kind string) (encRes, 
 	}
 	w.seen[key] = true
 	r1 := marshal(pv.Interface())
+	w.checkKept(g)
+	var snap1 []byte
+	if r1.class == "ok" {
+		snap1 = append([]byte{}, r1.data...)
+	}
 	r2 := marshal(pv.Interface())
 	det := "1"
-	if r1.class != r2.class || !bytes.Equal(r1.data, r2.data) {
+	if r1.class != r2.class || !bytes.Equal(r1.data, r2.data) || !bytes.Equal(r1.data, snap1) {
 		det = "0"
+	}
+	if r1.class == "ok" {
+		w.keep(g, r1.data)
 	}
 	// model-independent round-trip oracle: decode by name and by id, re-encode, same bytes
 	rt := "na"
@@ -227,16 +310,42 @@ func (w *caseWriter) enc(s *tlh.Struct, pv reflect.Value, kind string) (encRes, 
 		rt = "ok"
 		pv2 := reflect.New(s.Type)
 		p, val := vc.Catch(func() {
-			if err := tl.Decode(r1.data, pv2.Interface()); err != nil {
+			// the decoder gets its own copy of the bytes: it must neither write into it nor hand out
+			// values that share memory with it (the caller may reuse its receive buffer)
+			in := append([]byte{}, snap1...)
+			if err := tl.Decode(in, pv2.Interface()); err != nil {
 				rt = "fail:named-decode-error:" + vc.HexS(err.Error())
 				return
 			}
-			if r3 := marshal(pv2.Interface()); r3.class != "ok" || !bytes.Equal(r3.data, r1.data) {
+			if !bytes.Equal(in, snap1) {
+				rt = "fail:decode-modified-its-input"
+				return
+			}
+			a1 := u.Abs(pv2)
+			for i := range in {
+				in[i] = 0xaa
+			}
+			if u.Abs(pv2) != a1 {
+				rt = "fail:decoded-value-shares-memory-with-input"
+				return
+			}
+			if r3 := marshal(pv2.Interface()); r3.class != "ok" || !bytes.Equal(r3.data, snap1) {
 				rt = "fail:named-reencode-differs"
 				return
 			}
 			if s.Registered {
-				o, err := tl.DecodeUnknownObject(r1.data)
+				in2 := append([]byte{}, snap1...)
+				o, err := tl.DecodeUnknownObject(in2)
+				if err == nil {
+					a2 := u.Abs(reflect.ValueOf(&o).Elem())
+					for i := range in2 {
+						in2[i] = 0x55
+					}
+					if u.Abs(reflect.ValueOf(&o).Elem()) != a2 {
+						rt = "fail:decoded-value-shares-memory-with-input"
+						return
+					}
+				}
 				if err != nil {
 					rt = "fail:unknown-decode-error:" + vc.HexS(err.Error())
 					return
@@ -245,7 +354,7 @@ func (w *caseWriter) enc(s *tlh.Struct, pv reflect.Value, kind string) (encRes, 
 					rt = "fail:unknown-decode-type:" + vc.HexS(fmt.Sprintf("%T", o))
 					return
 				}
-				if r4 := marshal(o); r4.class != "ok" || !bytes.Equal(r4.data, r1.data) {
+				if r4 := marshal(o); r4.class != "ok" || !bytes.Equal(r4.data, snap1) {
 					rt = "fail:unknown-reencode-differs"
 				}
 			}
@@ -439,7 +548,8 @@ func putMessage(b []byte) []byte {
 
 func le32(x uint32) []byte { b := make([]byte, 4); binary.LittleEndian.PutUint32(b, x); return b }
 
-var boundaryWords = []uint32{0, 0xffffffff, 0x7fffffff, 0x80000000, 1, 2, 0x1cb5c415, 0x997275b5, 0xbc799737, 0x56730bcc, crcGzip, 0x73f1f8dc, 0xfe, 0xfeffffff, 0x00fffffe}
+var boundaryWords = []uint32{0, 0xffffffff, 0x7fffffff, 0x80000000, 1, 2, 0x1cb5c415, 0x997275b5, 0xbc799737, 0x56730bcc, crcGzip, 0x73f1f8dc, 0xfe, 0xfeffffff, 0x00fffffe,
+	0xfffffffe, 0xff0000fe, 0x000100fe, 0x010000fe} // the last four: long-form byte-string headers announcing 16 MB, 16.7 MB, 256 B, 65536 B
 
 func (w *caseWriter) mutate(r *vc.Rng, s *tlh.Struct, data []byte, perCase int, regCrcs []uint32) {
 	for k := 0; k < perCase; k++ {
@@ -550,7 +660,14 @@ func cases(tier, path string) {
 			emit(g.Struct(s, depth, allOne), "all-present")
 		}
 		// every presence pattern of every shared flag group
-		for _, members := range s.Groups() {
+		groups := s.Groups()
+		bits := []int{}
+		for b := range groups {
+			bits = append(bits, b)
+		}
+		sort.Ints(bits)
+		for _, b := range bits {
+			members := groups[b]
 			if len(members) < 2 {
 				continue
 			}
@@ -620,7 +737,28 @@ func cases(tier, path string) {
 		}
 	}
 	// bare vectors with hints (what rpc results of vector type look like)
-	hintTypes := []reflect.Type{reflect.TypeOf([]int32{}), reflect.TypeOf([]int64{}), reflect.TypeOf([]string{}), reflect.TypeOf([][]byte{})}
+	hintTypes := []reflect.Type{reflect.TypeOf([]int32{}), reflect.TypeOf([]int64{}), reflect.TypeOf([]string{}), reflect.TypeOf([][]byte{}),
+		reflect.TypeOf([]bool{}), reflect.TypeOf([]float64{})}
+	// the hints the generated methods really pass: slices of struct pointers and of interfaces
+	// (13 of the 17 MakeRequestWithHintToDecoder callers); a few of each, chosen deterministically
+	nptr, nif := 3, 3
+	if full {
+		nptr, nif = 12, 12
+	}
+	for _, s := range structs {
+		if nptr > 0 && s.Registered && s.CrcOK && len(s.Fields) <= 4 && strings.HasPrefix(s.Name, "telegram.") {
+			hintTypes = append(hintTypes, reflect.SliceOf(reflect.PtrTo(s.Type)))
+			nptr--
+		}
+	}
+	for _, it := range u.Ifaces {
+		if nif > 0 && strings.Contains(it.String(), "telegram.") {
+			if ft := u.Fty(reflect.SliceOf(it)); !strings.HasPrefix(ft, "Vbad") {
+				hintTypes = append(hintTypes, reflect.SliceOf(it))
+				nif--
+			}
+		}
+	}
 	for _, ht := range hintTypes {
 		for k := 0; k < 6; k++ {
 			v := g.Value(ht, 1, true)
@@ -651,8 +789,15 @@ func cases(tier, path string) {
 			w.decU(append(append(le32(0x73f1f8dc), le32(1)...), it...), nil, "container-size")
 		}
 	}
-	for _, inner := range [][]byte{le32(0x997275b5), le32(0xbc799737), {}, {1, 2, 3}, append(le32(crcGzip), putMessage(gzipBytes(le32(0x56730bcc)))...)} {
+	// the last two payloads inflate to more than one 4096-byte read of the unpacking loop
+	bigVec := append(le32(0x1cb5c415), le32(3000)...)
+	for i := 0; i < 3000; i++ {
+		bigVec = append(bigVec, le32(uint32(i*2654435761))...)
+	}
+	for _, inner := range [][]byte{le32(0x997275b5), le32(0xbc799737), {}, {1, 2, 3}, append(le32(crcGzip), putMessage(gzipBytes(le32(0x56730bcc)))...),
+		append(append(le32(0xf35c6d01), []byte{1, 0, 0, 0, 2, 0, 0, 0}...), bigVec...), bytes.Repeat(le32(0x997275b5), 1025)} {
 		w.decU(append(le32(crcGzip), putMessage(gzipBytes(inner))...), nil, "gzip")
+		w.decU(append(le32(crcGzip), putMessage(gzipBytes(inner))...), []reflect.Type{reflect.TypeOf([]int32{})}, "gzip")
 	}
 	// gzip_packed around a bare vector: the packed message is decoded with the caller's hints
 	for _, ht := range hintTypes {
@@ -745,6 +890,28 @@ func cases(tier, path string) {
 			w.out.Line("B", w.id(), strconv.Itoa(s.Tid), strconv.Itoa(n), cls, hdr)
 		}
 	}
+	// the same boundary for the string kind (strings and byte strings take different paths in the encoder)
+	if s, ok := structByName("objects.RpcError"); ok {
+		for _, n := range []int{1<<24 - 1, 1 << 24, 1<<24 + 1} {
+			pv := reflect.New(s.Type)
+			pv.Elem().FieldByName("ErrorMessage").SetString(strings.Repeat("x", n))
+			r := marshal(pv.Interface())
+			w.stat["E:big-string"]++
+			cls := r.class
+			hdr := "-"
+			if r.class == "ok" {
+				hdr = vc.Hex(r.data[8:12])
+				pv2 := reflect.New(s.Type)
+				err := tl.Decode(r.data, pv2.Interface())
+				if err != nil || len(pv2.Elem().FieldByName("ErrorMessage").String()) != n {
+					cls = "ok-but-roundtrip-fails"
+				}
+			}
+			w.out.Line("B", w.id(), strconv.Itoa(s.Tid), strconv.Itoa(n), cls, hdr)
+		}
+	}
+	w.checkKept("end")
+	w.stat["Q:max-alloc-bytes"] = int(w.maxAlloc)
 	w.out.Close()
 	keys := []string{}
 	for k := range w.stat {
@@ -769,7 +936,10 @@ func structByName(n string) (*tlh.Struct, bool) {
 func one(a []string) {
 	if len(a) >= 4 && a[0] == "D" {
 		w := &caseWriter{}
-		fmt.Println(w.viaWorker(a[1], a[2], vc.UnHex(a[3])))
+		data := vc.UnHex(a[3])
+		r := w.viaWorker(a[1], a[2], data)
+		fmt.Printf("alloc\t%d\t%d\n", w.lastAlloc, allocPerByte*len(data)+allocSlack)
+		fmt.Println(r)
 		return
 	}
 	fmt.Println("unsupported")
